@@ -1159,6 +1159,22 @@ pub fn deep_clone_op(op: &Op, cloner: &mut impl Cloner, old_resources: &Resource
             copy_properties(properties, cloner, old_resources, resources)?;
             Ok(Op::BeginMarkedContent { tag: tag.clone(), properties: properties.deep_clone(cloner)? })
         }
+        Op::Shade { ref name } => {
+            // shadings have no typed model: they are kept among the other entries of the resources
+            if let Some(Primitive::Dictionary(old_shadings)) = old_resources.other.get("Shading").map(|p| p.clone().resolve(cloner)).transpose()? {
+                if let Some(shading) = old_shadings.get(name.as_str()) {
+                    let mut shadings = match resources.other.remove("Shading") {
+                        Some(Primitive::Dictionary(d)) => d,
+                        _ => Dictionary::new()
+                    };
+                    if shadings.get(name.as_str()).is_none() {
+                        shadings.insert(name.clone(), shading.deep_clone(cloner)?);
+                    }
+                    resources.other.insert("Shading", Primitive::Dictionary(shadings));
+                }
+            }
+            Ok(op.clone())
+        }
         Op::FillColorSpace { ref name } | Op::StrokeColorSpace { ref name } => {
             if !resources.color_spaces.contains_key(name) {
                 if let Some(cs) = old_resources.color_spaces.get(name) {
